@@ -128,6 +128,55 @@ def _impl(case):
     return {"value": value, "exists": exists, "parent": parent, "obj": value.get("ok") if "ok" in value else None}
 
 
+_SENTINEL = object()
+
+
+def _other_forms(ctx, c, inp, iv):
+    import io
+    import json
+    import jsonpath
+    from jsonpath import JSONPointer
+
+    s, ue, doc = c["s"], c["ue"], c["doc"]
+    ctx.count("other-forms")
+    try:
+        p = JSONPointer(s, unicode_escape=ue)
+    except Exception:  # noqa: BLE001
+        return
+    forms = {
+        "jsonpath.pointer.resolve(text)": lambda: jsonpath.pointer.resolve(s, doc, unicode_escape=ue),
+        "jsonpath.resolve(text)": lambda: jsonpath.resolve(s, doc, unicode_escape=ue),
+    }
+    if not (ue and "\\" in s):       # with escape decoding on, tokens that contain a backslash are outside the property
+        forms["jsonpath.pointer.resolve(parts)"] = lambda: jsonpath.pointer.resolve(list(p.parts), doc, unicode_escape=ue)
+        forms["jsonpath.pointer.resolve(parts as tuple)"] = lambda: jsonpath.pointer.resolve(tuple(p.parts), doc, unicode_escape=ue)
+    if isinstance(doc, (dict, list)):
+        txt = json.dumps(doc, ensure_ascii=False)
+        forms["resolve(JSON text)"] = lambda: p.resolve(txt)
+        forms["resolve(StringIO)"] = lambda: p.resolve(io.StringIO(txt))
+        forms["resolve(BytesIO)"] = lambda: p.resolve(io.BytesIO(txt.encode("utf-8")))
+        forms["jsonpath.pointer.resolve(text, JSON text)"] = lambda: jsonpath.pointer.resolve(s, txt, unicode_escape=ue)
+        forms["exists(JSON text)"] = None
+    for name, fn in forms.items():
+        if fn is None:
+            continue
+        r = _canon_outcome(core.outcome(fn))
+        if r != iv:
+            ctx.violation("every way of resolving the same pointer against the same document must agree", {**inp, "form": name}, r, iv)
+    failing = "err" in iv and iv["err"] in RES_ERRS
+    for d in (None, 0, False, "", [], _SENTINEL):
+        for name, fn in (("JSONPointer.resolve(default=)", lambda: p.resolve(doc, default=d)),
+                         ("jsonpath.pointer.resolve(default=)", lambda: jsonpath.pointer.resolve(s, doc, default=d, unicode_escape=ue))):
+            r = core.outcome(fn)
+            if failing:
+                if not ("ok" in r and r["ok"] is d):
+                    ctx.violation("when resolution fails the caller's default is returned (whatever its truth value)", {**inp, "form": name, "default": repr(d)},
+                                  _canon_outcome(r) if d is not _SENTINEL or "err" in r else "another object", "the default")
+            elif "ok" in iv:
+                if _canon_outcome(r) != iv or (d is _SENTINEL and r.get("ok") is d):
+                    ctx.violation("when resolution succeeds the default is ignored", {**inp, "form": name, "default": repr(d)}, _canon_outcome(r) if "err" in r or r["ok"] is not _SENTINEL else "the default", iv)
+
+
 def _canon_outcome(o):
     if "ok" in o:
         return {"ok": core.canon(o["ok"])}
@@ -198,6 +247,10 @@ def evaluate(ctx, cases):
             same = (got is node) if isinstance(node, (dict, list)) else ("ok" in impl["value"] and type(got) is type(node) and got == node)
             if not same:
                 ctx.violation("the pointer spelled from a node's location must resolve to that very node", inp, iv, {"ok": core.canon(node)})
+        # --- the other observation points: module-level resolve (text and parts forms), documents given as JSON text or
+        #     file-like objects, and the caller's default
+        if ctx.rng.random() < (0.06 if ctx.tier == "quick" else 0.25) and "err" not in impl.get("ctor", {}):
+            _other_forms(ctx, c, inp, iv)
         # exists agrees with resolve, always
         if ("ok" in iv) != (ie == {"ok": True}) and not ("err" in iv and iv["err"] not in RES_ERRS):
             ctx.violation("exists() disagrees with resolve()", inp, ie, {"ok": "ok" in iv})
